@@ -1,3 +1,5 @@
+//go:build go1.23
+
 package tbtc
 
 // C08, production path: the wallet's signers are registered through the real
